@@ -796,6 +796,13 @@ add("C15", "benign: helper generator prunes through an explicit set difference v
     "        if k not in generator.ALL_JSON_PATH_PARTS - TrinoGenerator.SUPPORTED_JSON_PATH_PARTS\n",
     "        if k not in (generator.ALL_JSON_PATH_PARTS - TrinoGenerator.SUPPORTED_JSON_PATH_PARTS)\n", "silent", 0)
 
+add("C12", "_load looks a dotted class name up in sqlglot.expressions when a class of that name exists there", "sqlglot/serde.py",
+    "        module = __import__(module_path, fromlist=[class_name])\n    else:\n        module = exp\n",
+    "        module = exp\n        if not hasattr(exp, class_name):\n            module = __import__(module_path, fromlist=[class_name])\n    else:\n        module = exp\n", "C12.i")
+add("C12", "benign: _load imports the recorded module through importlib", "sqlglot/serde.py",
+    "        module = __import__(module_path, fromlist=[class_name])\n",
+    "        import importlib\n\n        module = importlib.import_module(module_path)\n", "silent")
+
 add("C15", "revert: dialect extends the sets of a shallow copy of the global coercion table in place", "sqlglot/dialects/bigquery.py",
     "        **deepcopy(TypeAnnotator.COERCES_TO),", "        **TypeAnnotator.COERCES_TO,", "C15.c")
 add("C15", "benign: element rebound to a new set instead of updated in place", "sqlglot/dialects/bigquery.py",
@@ -842,6 +849,10 @@ add("C08", "revert: replace() clears the links of a node contained in its own re
     "        if expression is not self:\n", "C08.b")
 add("C08", "revert: pushdown_dnf embeds the looked-up predicate itself", "sqlglot/optimizer/pushdown_predicates.py",
     "                node.on(predicate.copy(), copy=False)", "                node.on(predicate, copy=False)", "C08.g")
+
+add("C08", "__deepcopy__ restores the root's cached hash after the children were attached", "sqlglot/expressions/core.py",
+    "                    copy.args[k] = vs\n\n        return root\n",
+    "                    copy.args[k] = vs\n\n        root._hash = self._hash\n        return root\n", "C08.d")
 
 add("C13", "revert: multi-character advances ignore the line breaks they step over", "sqlglot/tokenizer_core.py",
     "                self._line += breaks\n                self._col = i - 1 - max(skipped.rfind(\"\\n\"), skipped.rfind(\"\\r\"))\n",
